@@ -24,6 +24,7 @@ import (
 	"math/rand"
 	"net"
 	"os"
+	"sort"
 	"strings"
 
 	"github.com/sirupsen/logrus"
@@ -336,6 +337,31 @@ func (c *acase) semProfiles(ingress bool) [][]M {
 	return out
 }
 
+// svcIDs: the service ip+port sets (dstIpPortSetIds) of the case
+func (c *acase) svcIDs() []string {
+	seen := map[string]bool{}
+	out := []string{}
+	all := [][]*proto.Rule{}
+	for _, p := range c.pols {
+		all = append(all, p.In, p.Out)
+	}
+	for _, p := range c.profiles {
+		all = append(all, p.In, p.Out)
+	}
+	for _, rs := range all {
+		for _, r := range rs {
+			for _, id := range r.DstIpPortSetIds {
+				if !seen[id] {
+					seen[id] = true
+					out = append(out, id)
+				}
+			}
+		}
+	}
+	sort.Strings(out)
+	return out
+}
+
 func (c *acase) namedIDs() []string {
 	seen := map[string]bool{}
 	out := []string{}
@@ -362,6 +388,7 @@ func (c *acase) namedIDs() []string {
 			add(r.NotDstNamedPortIpSetIds)
 		}
 	}
+	sort.Strings(out)
 	return out
 }
 
@@ -840,7 +867,7 @@ func main() {
 	for i := 1; i <= env.N; i++ {
 		c := genCase(env.Seed*1_000_003+int64(i), i)
 		lg.T = i
-		fields := M{"case": i, "ipv": int(c.ipv), "ipsets": polgen.SemIPSets(c.sets), "named": c.namedIDs(),
+		fields := M{"case": i, "ipv": int(c.ipv), "ipsets": polgen.SemIPSets(c.sets), "named": c.namedIDs(), "svc": c.svcIDs(),
 			"dirs": []M{{"dir": "ingress", "tiers": c.semTiers(true), "profiles": c.semProfiles(true)},
 				{"dir": "egress", "tiers": c.semTiers(false), "profiles": c.semProfiles(false)}}}
 		if mode != "run" {
